@@ -2,7 +2,7 @@ package eventbus
 
 import "context"
 
-//verif:entry property=C04 tier=both bounds="one Once handler (sync/async, filter none/reject-negative) plus m<=2 ordinary handlers around it; history of H publishes each in {eligible, filter-rejected, already-cancelled context, other type}" cover="fired,never-eligible" H_quick=3 H_thorough=4
+//verif:entry property=C04 tier=both bounds="one Once handler (sync/async, filter none/reject-negative) plus m<=2 ordinary handlers around it (the one before it may be the very same function, plain or with a rejecting filter); history of H publishes each in {eligible, filter-rejected, already-cancelled context, other type, context cancelled mid-publish by the handler before it}" cover="fired,never-eligible" H_quick=3 H_thorough=4
 func harnessC04OnceHistory() {
 	H := vParam("H", 3)
 	c01Log, c01Re = nil, nil
@@ -10,10 +10,30 @@ func harnessC04OnceHistory() {
 	m := &c01Model{}
 	before := vInt(0, 1)
 	after := vInt(0, 1)
+	var cancelNow context.CancelFunc // set for a publish whose first handler cancels the context
+	beforeRejects := false
 	for i := 0; i < before; i++ {
-		Subscribe(bus, c01HA[1])
-		m.subscribe(0, &c01Reg{id: 1})
+		if vBool() {
+			// the SAME function as the once handler, registered earlier without Once
+			r := &c01Reg{id: 0}
+			if vBool() {
+				r.filter = 2
+				beforeRejects = true
+			}
+			Subscribe(bus, c01HA[0], c01Opts(r, false)...)
+			m.subscribe(0, r)
+		} else {
+			Subscribe(bus, func(e evA) {
+				c01Rec(0, 1, e.N)
+				if cancelNow != nil {
+					cancelNow()
+				}
+			})
+			m.subscribe(0, &c01Reg{id: 1})
+		}
 	}
+	_ = beforeRejects
+	sameFn := len(m.regs[0]) > 0 && m.regs[0][0].id == 0
 	once := &c01Reg{id: 0, once: true, async: vBool()}
 	if vBool() {
 		once.filter, once.cut = 3, -1 // accepts N >= 0
@@ -28,7 +48,7 @@ func harnessC04OnceHistory() {
 	fired := 0
 	everEligible := false
 	for h := 0; h < H; h++ {
-		kind := vInt(0, 3)
+		kind := vInt(0, 4)
 		c01TakeLog()
 		var want []c01Entry
 		switch kind {
@@ -50,11 +70,33 @@ func harnessC04OnceHistory() {
 		case 3: // another type
 			PublishContext(bus, context.Background(), evB{N: 5})
 			want = m.publish(1, 5, true)
+		case 4: // the first handler cancels the context while the publish is running
+			ctx, cancel := context.WithCancel(context.Background())
+			first := &c01Reg{id: -1}
+			if len(m.regs[0]) > 0 {
+				first = m.regs[0][0]
+			}
+			if first.id != 1 {
+				// no cancelling handler in front: an ordinary eligible publish
+				cancel = func() {}
+				ctx = context.Background()
+			}
+			cancelNow = cancel
+			PublishContext(bus, ctx, evA{N: 5})
+			cancelNow = nil
+			if first.id == 1 {
+				// only the cancelling handler ran; nobody behind it is started or used up
+				want = []c01Entry{{0, 1, 5}}
+			} else {
+				want = m.publish(0, 5, true)
+				everEligible = true
+			}
+			cancel()
 		}
 		bus.Wait()
 		got := c01TakeLog()
 		for _, g := range got {
-			if g.id == 0 && g.typ == 0 {
+			if g.id == 0 && g.typ == 0 && !sameFn {
 				fired++
 			}
 		}
@@ -62,6 +104,15 @@ func harnessC04OnceHistory() {
 		vAssert(c01SameMultiset(got, want), "deliveries-match-model")
 		cnt, _ := c01Count(bus, 0)
 		vAssert(cnt == len(m.regs[0]), "once-counted-until-fired-only")
+	}
+	if sameFn {
+		// the log cannot tell the two registrations of one function apart: the
+		// per-publish comparison with the model above is the oracle; the model's flag says whether it fired
+		vAssert(once.fired == everEligible, "once-exactly-once-when-eligible")
+		fired = 0
+		if everEligible {
+			fired = 1
+		}
 	}
 	if everEligible {
 		vAssert(fired == 1, "once-exactly-once-when-eligible")
